@@ -84,12 +84,25 @@ def run(prog):
                     s0 = te.mu_init[(h, strip(cs.args[0])[1])]
                     if any(m in show(s0) for m in markers):
                         src = s0
+                    else:
+                        # a vector that was itself collected from the item list and is now consumed
+                        # (`for leaf in std::mem::take(&mut leaves)`): look through the &mut at the loop's entry
+                        txt = show(s0)
+                        for y in mir.subterms(s0):
+                            if y[0] == "mutref" and isinstance(y[1], int):
+                                v = te.state_in.get(h, {}).get(y[1])
+                                if v is not None and strip(v)[0] != "mu":
+                                    txt += " " + show(v)
+                        if any(m in txt for m in markers) and any(n_ in show(s0) for n_ in ("take(", "into_iter(", "drain(")):
+                            src = s0
                 if src is None:
                     continue
                 pushes = {}
                 for cs in te.calls:
                     if cs.bb in body and cs.callee.name in ("push", "push_back", "insert", "extend") and cs.args:
                         r = strip(cs.args[0])
+                        if mir.is_call(r, "index_mut") and r[2] and strip(r[2][0])[0] == "mutref":
+                            r = strip(r[2][0])          # a row of a table of accumulators (buckets[k].push(item))
                         if r[0] == "mutref" and (h, r[1]) in te.mu_init and not (r[1] in bufs and bufs[r[1]][0] == h):
                             # the accumulator is carried by *this* loop, not re-created in each iteration
                             init = strip(te.mu_init[(h, r[1])])
@@ -166,6 +179,25 @@ def run(prog):
                                     "then has extra models)" % (cs.callee.name, show(cs.args[0])[:40])))
         if n == 0:
             out.append(inst("NC", "%s:items" % fn.npath, UNDECIDED, fn, None, "no loop or iterator chain over %s recognised" % (markers,)))
+        # ---- and no clause is invented: every leaf the dtree builder makes holds one of the formula's clauses
+        if name == "from_cnf":
+            leaves, bad = 0, []
+            for g in _bodies(prog, fn):
+                for bb, t, line in g.terms.aggs:
+                    if not (t[1] == "adt" and (t[2] or "").endswith("DTree") and t[3] == "Leaf" and "clause" in t[5]):
+                        continue
+                    leaves += 1
+                    c = strip(t[4][t[5].index("clause")])
+                    while mir.is_call(c) and c[2] and c[1].name in ("clone", "to_vec", "to_owned", "cloned", "into", "deref", "as_slice"):
+                        c = strip(c[2][0])
+                    from_item = c[0] == "param" and g.kind == "Closure" or (c[0] == "field" and "next(" in show(c)) or \
+                        (c[0] == "index" or mir.is_call(c, "index")) and "clauses" in show(c)
+                    if not from_item:
+                        bad.append("a leaf is built over %s (line %s), which is not a clause of the formula: the dtree's leaves are no "
+                                   "longer exactly the CNF's clauses (an invented empty clause makes the compiled function false)"
+                                   % (show(c)[:40], line))
+            out.append(inst("NC", "%s:leaves-are-clauses" % fn.npath, VIOLATION if bad else (OK if leaves else UNDECIDED), fn, None,
+                            bad[0] if bad else ("every leaf holds an item of the clause list" if leaves else "no leaf construction found")))
     return out
 
 
